@@ -1186,3 +1186,47 @@ variant('b-channel-observer-without-limit', ['C20'], RXA,
                                                   reactivex_channel.limit_rate)""",
         """            subscriber = RxSubscriberFromObserver(reactivex_channel.observer, MAX_REQUEST_N)""",
         ('C20.e', 'ReactivexHandlerAdapter.request_channel'))
+
+# ----------------------------------------------------------------------------------------------- C01
+variant('b-response-to-neighbour-stream', ['C01'], H + 'request_response_responder.py',
+        """            self.socket.send_payload(
+                self.stream_id, future.result(), complete=True)""", """            self.socket.send_payload(
+                self.stream_id + 2, future.result(), complete=True)""", ('C01.a', 'RequestResponseResponder'))
+variant('b-cancel-on-stream-zero', ['C01'], 'rsocket/frame_builders.py',
+        """    frame = CancelFrame()
+    frame.stream_id = stream_id
+    return frame""", """    frame = CancelFrame()
+    return frame""", ('C01.a', ''))
+variant('b-register-under-old-id', ['C01'], RB,
+        """        handler.stream_id = stream_id
+        self._stream_control.register_stream(stream_id, handler)""", """        self._stream_control.register_stream(handler.stream_id or stream_id, handler)
+        handler.stream_id = stream_id""", ('C01.a', '_register_stream'))
+variant('b-payload-builder-crosses-fields', ['C01'], 'rsocket/frame_builders.py',
+        """    request = RequestStreamFrame()
+    request.initial_request_n = initial_request_n
+    request.stream_id = stream_id
+    request.data = payload.data
+    request.metadata = payload.metadata""", """    request = RequestStreamFrame()
+    request.initial_request_n = initial_request_n
+    request.stream_id = stream_id
+    request.data = payload.metadata
+    request.metadata = payload.data""", ('C01.b', 'to_request_stream_frame'))
+variant('b-payload-from-frame-drops-metadata', ['C01'], 'rsocket/helpers.py',
+        "    return Payload(frame.data, frame.metadata)", "    return Payload(frame.data)", ('C01.b', 'payload_from_frame'))
+variant('b-dispatch-to-first-stream', ['C01'], 'rsocket/stream_control.py',
+        "            self._streams[stream_id].frame_received(frame)",
+        "            next(iter(self._streams.values())).frame_received(frame)", ('C01.a', 'handle_stream'))
+variant('b-responder-registered-under-next-id', ['C01'], RB,
+        """        request_responder = RequestStreamResponder(self, publisher)
+        self._register_stream(stream_id, request_responder)""", """        request_responder = RequestStreamResponder(self, publisher)
+        self._register_stream(self._allocate_stream(), request_responder)""", ('C01.a', 'handle_request_stream'))
+variant('b-second-dequeuer', ['C01'], RB,
+        """    def _send_new_keepalive(self, data: bytes = b''):
+        self.send_frame(to_keepalive_frame(data))""", """    def _send_new_keepalive(self, data: bytes = b''):
+        if self._send_queue.qsize() > 1000:
+            self._send_queue.get_nowait()
+        self.send_frame(to_keepalive_frame(data))""", ('C01.c', 'dequeued'))
+variant('b-requester-sends-empty-payload', ['C01'], H + 'request_response_requester.py',
+        """        request = to_request_response_frame(self.stream_id,
+                                            self._payload,""", """        request = to_request_response_frame(self.stream_id,
+                                            Payload(self._payload.data),""", ('C01.b', 'RequestResponseRequester'))
